@@ -1143,3 +1143,18 @@ TWINS = [
       '                or ("contour" in ds '
       'and np.all(ds["contour"][0] == 0))):')),
 ]
+
+# mutants that re-introduce the repaired defects (apply to the fixed tree)
+MUTANTS = list(MUTANTS) + [
+    ("pruning while iterating (F09 returns)", "dclab/cli/task_join.py",
+     ("for feat in list(features):", "for feat in features:"), "R9.1"),
+    ("string sort key (F09b returns)", "dclab/cli/task_join.py",
+     ('            key = (dsa.config["experiment"]["date"],\n'
+      '                   dsa.config["experiment"]["time"],\n'
+      '                   dsa.config["experiment"]["run index"],\n'
+      '                   )\n',
+      '            key = "_".join([dsa.config["experiment"]["date"],\n'
+      '                            dsa.config["experiment"]["time"],\n'
+      '                            str(dsa.config["experiment"]["run index"])\n'
+      '                            ])\n'), "R9.4"),
+]
